@@ -286,7 +286,7 @@ PwAllReadMask(t) ==
   /\ At(t, "all", "PwAllReadMask")
   /\ LET l == L[t]
          mk == Ws(l.x).mask[l.g]
-     IN Commit(S, t, Goto(Push([l EXCEPT !.wn = IF mk = {} THEN 0 ELSE 1000], "AllNext"),
+     IN Commit(S, t, Goto(Push([l EXCEPT !.wn = 1000], "AllNext"),    \* always bumpAndWakeAll (the mask is not read)
                           "bw", "EwBump"), G)
 
 \* ------------------------------------------------------------------ cascadeWake(target) in a wrapped task
